@@ -89,6 +89,42 @@ def pizzetti(chk, prog):
                module=GEO, function="ReferenceEllipsoid.equatorial_normal_gravity/polar_normal_gravity", construct="Pizzetti [%s]" % label, line=fe.node.lineno)
 
 
+def limit_arm(chk, prog):
+    """LIMIT: the f == 0 arms of equatorial_/polar_normal_gravity are the limits of the general arm: evaluating the two closed forms the
+    interpreter extracts (general arm at f = 1e-2 and 1e-3, sphere arm at f = 0) the gap must shrink with f (it is O(f) for the limit and
+    constant for anything else).  Numerics are done on the extracted expressions, not by running the code."""
+    import math
+    cls = prog.cls(GEO + "::ReferenceEllipsoid")
+    for attr in ("equatorial_normal_gravity", "polar_normal_gravity"):
+        fn = cls.lookup(attr)
+
+        def law(attr=attr):
+            it = Interp(prog, oracle=lambda c, i: False if c.op in ("<", ">", "<=", ">=") else None)
+            obj, a, f, GM, w = ellipsoid(it)
+            gen = it.getattr(obj, attr, None)
+            it0 = Interp(prog, oracle=lambda c, i: False if c.op in ("<", ">", "<=", ">=") else None)
+            obj0, *_ = ellipsoid(it0, 0)
+            sph = it0.getattr(obj0, attr, None)
+            worst = None
+            for av, GMv, wv in ((6378137.0, 3.986004418e14, 7.292115e-5), (1.7e6, 4.9e12, 2.0e-4), (7.0e7, 1.2e17, 1.7e-4)):
+                def val_at(fv):
+                    vals = {"a": av, "GM": GMv, "w": wv, "f": fv}
+                    return lambda at: vals[at.name]
+                s0 = P.evalf(sph, val_at(0.0))
+                d1 = abs(P.evalf(gen, val_at(1e-2)) - s0) / abs(s0)
+                d2 = abs(P.evalf(gen, val_at(1e-3)) - s0) / abs(s0)
+                if not (d1 == d1 and d2 == d2):
+                    return (None, "closed forms not evaluable at the sample (a=%g)" % av)
+                if d2 > 0.3 * d1 and d2 > 1e-10:
+                    worst = (av, GMv, wv, d1, d2)
+            if worst:
+                return (False, "for a=%g, GM=%g, w=%g the general arm differs from the f == 0 arm by %.3e (relative) at f = 1e-2 and still by %.3e at f = 1e-3: "
+                               "the sphere arm is not the limit of the general expression (gravity jumps between f = 0 and any small flattening)" % worst, None)
+            return True
+        chk.ob("LIMIT", fn.ref, "the f == 0 arm of %s is the f -> 0 limit of the general arm" % attr, law, module=GEO, function="ReferenceEllipsoid." + attr,
+               construct="sphere arm is the limit of the general arm", line=fn.node.lineno)
+
+
 def somigliana(chk, prog):
     cls = prog.cls(GEO + "::ReferenceEllipsoid")
     fn = cls.lookup("normal_gravity")
@@ -119,6 +155,34 @@ def somigliana(chk, prog):
         fac = 1 - 2 * h * (1 + f + m - 2 * f * s2) / a + 3 * h * h / (a * a)
         return eq(gh, g0 * fac, "g(lat,h)")
     chk.ob("HEIGHT.formula", fn.ref, "g(lat,h) == g(lat,0) * (1 - 2h(1+f+m-2f sin^2)/a + 3h^2/a^2)", height, construct="free-air factor", **kw)
+    # regime switches on the height: every inequality-guarded arm of normal_gravity must return the same closed form
+    seen = []
+    probe = Interp(prog, oracle=lambda c, i: (seen.append(c) or False) if (c.op in ("<", ">", "<=", ">=") and i.func_stack and i.func_stack[-1].name == "normal_gravity") else (False if c.op in ("<", ">", "<=", ">=") else None))
+    try:
+        o2, *_ = ellipsoid(probe)
+        probe.run(fn, [lat, h], self_obj=o2)
+    except Exception:
+        pass
+    if seen:
+        def height_arm():
+            # ge and gp are kept as symbols (their closed forms are checked by PIZZETTI/LIMIT): the surface value then stays small
+            cls_ = prog.cls(GEO + "::ReferenceEllipsoid")
+            ge_s, gp_s = P.sym("ge"), P.sym("gp")
+            icpt = {cls_.lookup("equatorial_normal_gravity").ref: lambda it_, a_, k_: ge_s, cls_.lookup("polar_normal_gravity").ref: lambda it_, a_, k_: gp_s}
+            in_ng = lambda i: bool(i.func_stack and i.func_stack[-1].name == "normal_gravity")
+            it2 = Interp(prog, oracle=lambda c, i: (True if in_ng(i) else False) if c.op in ("<", ">", "<=", ">=") else None, intercepts=icpt)
+            it0 = Interp(prog, oracle=lambda c, i: False if c.op in ("<", ">", "<=", ">=") else None, intercepts=icpt)
+            o3, a3, f3, GM3, w3 = ellipsoid(it2)
+            o0, *_ = ellipsoid(it0)
+            from sa.lib import DEG2RAD_of
+            D = DEG2RAD_of(it2, prog.module(GEO))
+            g_gen = it0.run(fn, [lat, h], self_obj=o0)          # the closed form checked by HEIGHT.formula above
+            g_arm = it2.run(fn, [lat, h], self_obj=o3)
+            return eq(g_arm, g_gen, "g(lat,h) on the arm taken when %s" % (seen[0],))
+        chk.ob("HEIGHT.formula", fn.ref + "::inequality arms", "the arm of normal_gravity taken when `%s` returns the same free-air closed form (no jump at the switch)" % (seen[0],),
+               height_arm, construct="free-air factor [inequality arm]", **kw)
+    else:
+        chk.record("HEIGHT.formula", fn.ref + "::inequality arms", "normal_gravity has no inequality-guarded regime switch")
     # interval argument: d/dh of the factor = (-2B + 6h/a)/a with B >= 1 + f + m - 2f >= 1 - f >= 0.8 and 6h/a <= 0.03
     f_max, h_over_a = Fraction(1, 5), Fraction(5, 1000)
     upper = -2 * (1 - f_max) + 6 * h_over_a
@@ -154,6 +218,7 @@ def run(chk, prog, tier):
     derived(chk, prog)
     pizzetti(chk, prog)
     somigliana(chk, prog)
+    limit_arm(chk, prog)
     shared(chk, prog)
     chk.require_count("PIZZETTI", 3)
     chk.require_count("DERIVED", 4)
